@@ -48,6 +48,10 @@ def run(ctx):
     from rules import c04
 
     ctx.import_obligations("R6", c04.run)
+    # the client's check-in must be producible for every host: the byte cap on the metadata info string (C19.R5)
+    from rules import c19
+
+    ctx.import_obligations("R7", c19.r5)
 
 
 def r1(ctx):
@@ -231,6 +235,21 @@ def r4(ctx):
     my = [y for y in ys if y not in py]
     ok = bool(my) and bool(py) and all(not cfg.reaches(cfg.node(fv.stmt_of(p)), cfg.node(fv.stmt_of(m))) for p in py for m in my)
     ctx.ob("R4", "DOM", ir, "metadata before packets", ok, "decrypted metadata is yielded before any packet of the same message" if ok else "packet yields can precede the metadata yield")
+    # the decoder is a generator: what it learns from a message (derived session keys, metadata cache) must be stored
+    # before it first suspends, otherwise a consumer that takes only the first packet leaves the decoder without keys
+    late = []
+    for s in statements(ir.node):
+        tg = s.targets if isinstance(s, ast.Assign) else [s.target] if isinstance(s, (ast.AugAssign, ast.AnnAssign)) else []
+        for t in tg:
+            base = t
+            while isinstance(base, ast.Subscript):
+                base = base.value
+            if (dotted(base) or "").startswith("self.") and cfg.has(s):
+                if any(cfg.reaches(cfg.node(fv.stmt_of(y)), cfg.node(s)) for y in ys):
+                    late.append(src(s)[:60])
+    stores = [s for s in statements(ir.node) if isinstance(s, ast.Assign) and dotted(s.targets[0]) == "self.beacon_keys"]
+    ctx.ob("R4", "DOM", ir, "decoder state stored before the first yield", bool(stores) and not late,
+           f"{len(stores)} store(s) of the derived keys; none reachable from a yield" if stores and not late else f"state stores reachable after a yield (lost when the generator is not resumed): {late}; key stores={len(stores)}")
     tf = [c for c in fn_calls(ir.node) if dotted(c.func) == "self.get_transform_for_http"]
     rc = [c for c in fn_calls(ir.node) if isinstance(c.func, ast.Attribute) and c.func.attr == "recover"]
     ok = len(tf) == 1 and len(rc) == 1 and origin(ir.node, rc[0].func.value) is tf[0] and src(rc[0].args[0]) == src(tf[0].args[0])
